@@ -139,6 +139,8 @@ class SeqHarness:
             cells["last_exception"] = env.lookup_env("last_exception")
         if any(v is None for v in cells.values()):
             raise Unsupported(f"{fn}: cells {[k for k, v in cells.items() if v is None]} not found (drift)")
+        from .cells import require_known
+        require_known(A, set(cells), uid)
         subscription, cancelable = cells["subscription"].vars["subscription"], cells["cancelable"].vars["cancelable"]
         self.rec(ctx, uid + "/subscribe/the-pending-tick-is-held-for-cancellation", isinstance(cancelable, Obj) and cancelable.fields.get("current") is sc[0][5])
         # dispose: stops future ticks, disposes the pending tick and the current subscription
